@@ -10,7 +10,7 @@ ID = 'C02'
 KIND = 'explorer'
 LEVEL = 'model_checking'
 LIVE = {'thorough': ['stubborn-stop', 'external-kill-then-stop']}
-BUDGET = {'quick': 120, 'thorough': 900}
+BUDGET = {'quick': 900, 'thorough': 10800}
 RULE = ('every execution = fresh real daemon + simulated kernel; all placements of <=E worker deaths '
         '(exit 1 / killed by 9) at every loop-iteration boundary and before every kernel call of the '
         'stop/restart/rm/quit/aborted-start sequence; phase two: all request sequences of length <=3 '
@@ -56,6 +56,8 @@ def scenarios(tier):
     # a stop / rm that completes while the socket-event start of an on-demand watcher is between two spawns
     for op in ('stop', 'rm'):
         out.append(Scenario('ondemand-race', op=op, E=1))
+        # ... or that is still in flight (workers that ignore the stop signal) when that start spawns its next worker
+        out.append(Scenario('ondemand-race', op=op, E=1, pat='stubborn'))
     # phase two: stopped stays stopped
     maxlen = 2 if tier == 'quick' else 3
     ops = [o for o in TAIL_OPS if o != 'die-none']
@@ -426,7 +428,8 @@ def _run_ondemand_race(scn, ch, res):
     from vt.events import Req
     sock = CircusSocket.load_from_config({'name': 'web', 'host': '127.0.0.1', 'port': '0'})
     world = World(ch, [WSpec('od', numprocesses=3, graceful_timeout=G, warmup_delay=0.25, on_demand=True,
-                             use_sockets=True, cmd='worker --fd $(circus.sockets.web)')], sockets=[sock])
+                             use_sockets=True, cmd='worker --fd $(circus.sockets.web)',
+                             behaviours=pattern(scn.p.get('pat', 'obedient')))], sockets=[sock])
     client = None
     state = {'req': None}
 
